@@ -9,7 +9,8 @@ for i in range(1, 33):
     pid = "C%02d" % i
     if os.path.exists(os.path.join(os.path.dirname(os.path.abspath(__file__)), "props", pid.lower() + ".py")):
         mod = importlib.import_module("props." + pid.lower())
-        if getattr(mod, "MANIFEST", None):
+        # claimed only when the check's theorem file exists (a check without theorems is not a claim)
+        if getattr(mod, "MANIFEST", None) and os.path.exists(os.path.join(os.path.dirname(os.path.dirname(os.path.abspath(__file__))), "coq", "Props", pid + ".v")):
             CHECKS[pid] = mod.MANIFEST
 V = os.path.dirname(os.path.dirname(os.path.abspath(__file__)))
 ids = [json.loads(l)["id"] for l in open(os.path.join(V, "properties.jsonl"))]
